@@ -138,6 +138,19 @@ def rn5(prog, rr):
                         if a not in ("rhs.range_l", "self.range_l"):
                             rr.finding(f, n, _q(f), "RN5: the membership expression receives '%s' (a copy or a derived object), so later edits of the "
                                        "rangelist are not seen by the next randomize call" % a)
+            # a function that accepts a rangelist argument (isinstance(p, rangelist)) hands that rangelist's own model to ExprInModel
+            from sa.ir import guard_facts
+            for t in [x for x in walk_local(f.node) if isinstance(x, ast.Call) and call_name(x) == "isinstance" and len(x.args) == 2
+                      and norm(x.args[1]) == "rangelist" and isinstance(x.args[0], ast.Name)]:
+                pv = t.args[0].id
+                ins = [n for n in walk_local(f.node) if isinstance(n, ast.Call) and (dotted(n.func) or "").endswith("ExprInModel") and len(n.args) == 2]
+                shared = [n for n in ins if norm(n.args[1]) == pv + ".range_l" and ("isinstance(%s, rangelist)" % pv) in guard_facts(f.node, n)]
+                rr.inst("%s: rangelist argument '%s' shared by reference at %d site(s)" % (_q(f), pv, len(shared)))
+                if ins and not shared:
+                    rr.finding(f, t, _q(f), "RN5: %s accepts a rangelist but builds the membership expression from %s instead of from %s.range_l itself: "
+                               "the constraint holds a snapshot, so append/clear/extend on the rangelist after the constraint was elaborated are ignored"
+                               % (_q(f), sorted({norm(n.args[1]) for n in ins}), pv), text="rangelist not shared")
+                break
 
 
 # --------------------------------------------------------------------------------------- SH2
@@ -208,7 +221,7 @@ def sh2(prog, rr):
 
 
 # --------------------------------------------------------------------------------------- CV4
-@rule("CV4", ["C10"], "covergroup.sample copies every argument into the model field of the same index before sampling", engine="SAI", floor=2)
+@rule("CV4", ["C10", "C11"], "covergroup.sample copies every argument into the model field of the same index before sampling", engine="SAI", floor=2)
 def cv4(prog, rr):
     from sa.ir import find_local
 
@@ -227,6 +240,15 @@ def cv4(prog, rr):
     rr.inst("copy loop line %d, model.sample line %d" % (lp.lineno, ms.lineno))
     if ms.lineno < lp.end_lineno:
         rr.finding(f, ms, "covergroup.sample", "CV4: the model is sampled before the arguments are copied into its fields")
+    # the sampled values are also exposed on the covergroup object (callable targets / iffs read them through self) - before the model samples
+    exposes = [n for n in walk_local(f.node) if isinstance(n, ast.Call) and call_name(n) == "setattr" and len(n.args) == 3 and norm(n.args[0]) == "self"
+               and "args[" in norm(n.args[2])]
+    rr.inst("sample arguments exposed on the covergroup at %d site(s)" % len(exposes))
+    for e in exposes:
+        if e.lineno > ms.lineno:
+            rr.finding(f, e, "covergroup.sample", "CV4: the sampled values are put on the covergroup object (%s) only after the model has sampled: a callable iff or "
+                       "target that reads self.<parameter> sees the previous sample's arguments, so a cross counts gated-off samples and skips enabled ones"
+                       % norm(e)[:60], text="exposed after sampling")
     # the field written is the one fetched with the loop index, and the value comes from args[index]
     gets = [n for n in walk_local(lp) if isinstance(n, ast.Assign) and isinstance(n.value, ast.Call) and call_name(n.value) == "get_field"]
     for g in gets:
